@@ -176,6 +176,115 @@ func TestVerifC20Table(t *testing.T) {
 	for _, p := range problems {
 		fmt.Fprintf(f, "problem 0 0 %s\n", strings.ReplaceAll(p, "\n", " "))
 	}
+	verifSPMTables(f)
+}
+
+// ---- Tie 1c: facts about the SentencePiece code obtained by EXECUTING it over finite domains
+
+// verifSPMByteSpellings: candidate spellings of the byte-fallback token of byte b; the real Encode decides which
+// one it looks up (the vocabulary has all of them, each with its own id).
+func verifSPMByteSpellings(b int) []string {
+	return []string{fmt.Sprintf("<0x%02X>", b), fmt.Sprintf("<0x%02x>", b), fmt.Sprintf("<0x%X>", b), fmt.Sprintf("<0x%x>", b),
+		fmt.Sprintf("<0X%02X>", b), fmt.Sprintf("<%02X>", b), fmt.Sprintf("0x%02X", b), fmt.Sprintf("<0x%03X>", b), fmt.Sprintf("<%d>", b)}
+}
+
+// verifSPMTables writes
+//
+//	spmbyte <b> <runes of the token the fallback produced for byte b | ->   (243 byte values of valid UTF-8)
+//	spmdec <c1> <c2> <byte | 256 (error) | 257 (written verbatim)>          Decode of the one token "<0x" c1 c2 ">"
+//	spmshape <runes> <byte | 256 | 257>                                     Decode of other 5-7 byte tokens
+//	spmless <scoreI> <aI> <scoreJ> <aJ> <0|1>                                queue.Less
+//	spmsep <rune>                                                           []rune(spmWhitespaceSep)
+//	control <n>                                                             TOKEN_TYPE_CONTROL
+func verifSPMTables(f *os.File) {
+	v := &Vocabulary{BOS: -1, EOS: -1, EOT: -1}
+	add := func(s string) {
+		v.Values = append(v.Values, s)
+		v.Types = append(v.Types, TOKEN_TYPE_BYTE)
+		v.Scores = append(v.Scores, 0)
+	}
+	for i := 0; i < 5; i++ {
+		add(fmt.Sprintf("[pad%d]", i))
+	}
+	seenSp := map[string]bool{}
+	for b := 0; b < 256; b++ {
+		for _, s := range verifSPMByteSpellings(b) {
+			if !seenSp[s] {
+				seenSp[s] = true
+				add(s)
+			}
+		}
+	}
+	spm := NewSentencePieceModel(v)
+	got := map[int]string{}
+	see := func(s string) {
+		ids, err := spm.Encode(s, false)
+		if err != nil || len(ids) != len(s) {
+			for i := 0; i < len(s); i++ {
+				if _, ok := got[int(s[i])]; !ok {
+					got[int(s[i])] = "-"
+				}
+			}
+			return
+		}
+		for i := 0; i < len(s); i++ {
+			t := verifRunes(v.Values[ids[i]])
+			if old, ok := got[int(s[i])]; ok && old != t {
+				t = "-"
+			}
+			got[int(s[i])] = t
+		}
+	}
+	for r := rune(0); r < 0x800; r++ {
+		if r != ' ' {
+			see(string(r))
+		}
+	}
+	for _, r := range []rune{0x0800, 0x1000, 0x2000, 0x3000, 0x4000, 0x5000, 0x6000, 0x7000, 0x8000, 0x9000,
+		0xA000, 0xB000, 0xC000, 0xD000, 0xE000, 0xF000, 0x10000, 0x40000, 0x80000, 0xC0000, 0x100000} {
+		see(string(r))
+	}
+	// byte 0x20 never reaches the fallback (spaces are replaced first): observed through "<0x20>" not being needed
+	for b := 0; b < 256; b++ {
+		if t, ok := got[b]; ok {
+			fmt.Fprintf(f, "spmbyte %d %s\n", b, t)
+		}
+	}
+	dec := func(tok string) int {
+		d := NewSentencePieceModel(&Vocabulary{Values: []string{"[p0]", "[p1]", "[p2]", "[p3]", "[p4]", tok}, Types: []uint32{1, 1, 1, 1, 1, 1},
+			Scores: []float32{0, 0, 0, 0, 0, 0}, BOS: -1, EOS: -1, EOT: -1})
+		s, err := d.Decode([]int32{5})
+		switch {
+		case err != nil:
+			return 256
+		case s == strings.ReplaceAll(tok, "▁", " "):
+			return 257
+		case len(s) == 1:
+			return int(s[0])
+		}
+		return 258
+	}
+	const chars = "0123456789ABCDEFabcdef_xXgG+-. oO"
+	for _, c1 := range []byte(chars) {
+		for _, c2 := range []byte(chars) {
+			fmt.Fprintf(f, "spmdec %d %d %d\n", c1, c2, dec("<0x"+string([]byte{c1, c2})+">"))
+		}
+	}
+	for _, tok := range []string{"<0x41", "<0x041>", "<0x4>", "[0x41>", "<0x41]", "<1x41>", "<0y41>", "<0X41>", "<0xé>", "<0b11>", "<0o7>", "<0x▁>", "<▁x41>", "▁0x41>", "abcdef", "<0x41>"} {
+		fmt.Fprintf(f, "spmshape %s %d\n", verifRunes(tok), dec(tok))
+	}
+	for _, si := range []float32{-1, 0, 1} {
+		for _, sj := range []float32{-1, 0, 1} {
+			for ai := 0; ai < 3; ai++ {
+				for aj := 0; aj < 3; aj++ {
+					q := queue{&candidate{a: ai, score: si}, &candidate{a: aj, score: sj}}
+					fmt.Fprintf(f, "spmless %d %d %d %d %s\n", int(si), ai, int(sj), aj, verifB(q.Less(0, 1)))
+				}
+			}
+		}
+	}
+	fmt.Fprintf(f, "spmsep %s\n", verifRunes(spmWhitespaceSep))
+	fmt.Fprintf(f, "control %d\n", TOKEN_TYPE_CONTROL)
 }
 
 // verifSynthBPE: a small byte-level vocabulary (ids in a scrambled order) with a handful of merges, among
@@ -1325,6 +1434,9 @@ func TestVerifC20(t *testing.T) {
 	// a case line is a history: <tokenizer> {<add 0|1> <texthex>}+ , run on a fresh tokenizer object
 	runLine := func(line string) bool {
 		f := strings.Fields(line)
+		if len(f) == 2 && f[0] == "vocabdata" {
+			return verifVocabReplay(f[1], lookup, out)
+		}
 		if len(f) < 3 || len(f)%2 != 1 || lookup(f[0]) == nil {
 			return false
 		}
@@ -1421,6 +1533,9 @@ func TestVerifC20(t *testing.T) {
 		}
 	}
 	thorough := os.Getenv("VERIF_TIER") == "thorough"
+
+	// the Vocabulary type itself (Encode / Decode / Merge / SpecialVocabulary) against the Lean `VocabData`
+	verifVocabCases(toks, rtoks, map[bool]int{false: 400, true: 4000}[thorough], out)
 
 	// long texts (single lines around and beyond 64 KiB, multi-byte characters at every phase relative to
 	// 65536, with and without line breaks; > 1 MiB in the thorough tier): L2 always, L1 where pieces are short
